@@ -177,6 +177,12 @@ func (_this *markerObjectBuilder) BuildEndContainer(ctx *Context) {
 }
 
 func (_this *markerObjectBuilder) BuildArtificiallyEndContainer(ctx *Context) {
+	if !_this.isContainer {
+		// The marked object never arrived, so there is nothing to end or to mark. Ending the child here would end
+		// the enclosing container with this builder still stacked, and the container would be added to itself.
+		ctx.UnstackBuilder()
+		return
+	}
 	_this.child.BuildArtificiallyEndContainer(ctx)
 }
 
